@@ -33,8 +33,10 @@ def settleW (slow : Bool) : Nat → Nat → St → St
 def settle : Nat → Nat → St → St := settleW false
 
 /-- events of the scripted ICAP reply: act, adapted body length, chunk size, cut, end -/
-def replyEvents (act : String) (al ch : Nat) (cut endk : String) (uob : Nat) : List Ev :=
-  let fin : List Ev := if endk == "r" then [.rdError] else [.rdEof]
+def replyEvents (wrErr : Bool) (act : String) (al ch : Nat) (cut endk : String) (uob : Nat) : List Ev :=
+  -- a reset may be noticed by a pending write first: Must(io.flag == Comm::OK) throws (modelled by the throwing `timeout` event)
+  let rst : Ev := if wrErr then .timeout else .rdError
+  let fin : List Ev := if endk == "r" then [rst] else [.rdEof]
   let a := body al 3
   let chunks (bs : Bytes) : List Ev :=
     if bs.isEmpty then [] else
@@ -46,7 +48,7 @@ def replyEvents (act : String) (al ch : Nat) (cut endk : String) (uob : Nat) : L
   let head (status : Nat) (h b : Bool) : List Ev := if cutHead then fin else [.rdIcap status h b false]
   let closing : List Ev := if endk == "c" then [.rdEof] else if endk == "r" then [.rdError] else []
   if act == "x" then [.rdEof]
-  else if act == "r" then [.rdError]
+  else if act == "r" then [rst]
   else if act == "g" then [.rdBad]
   else if act == "204" then head 204 false false ++ (if cutHead then [] else closing)
   else if act == "100" then [.rdIcap 100 false false false] ++ head 204 false false
@@ -76,7 +78,7 @@ def runEvents (fuel avail : Nat) (s : St) : List Ev → St
   | e :: es => runEvents fuel avail (settle fuel avail (step s e)) es
 
 /-- the scenario: virgin bytes up to `pre` are there when the ICAP server acts, the rest follows -/
-def simulate (slow : Bool) (cfg : Cfg) (vl pre : Nat) (at_ act : String) (al ch : Nat) (cut endk : String) (uob : Nat) : St :=
+def simulate (slow wrErr : Bool) (cfg : Cfg) (vl pre : Nat) (at_ act : String) (al ch : Nat) (cut endk : String) (uob : Nat) : St :=
   let fuel := 400
   let s0 := init cfg (body vl 1)
   let early := if at_ == "h" || at_ == "p" then pre else vl
@@ -86,7 +88,7 @@ def simulate (slow : Bool) (cfg : Cfg) (vl pre : Nat) (at_ act : String) (al ch 
   -- 100 Continue when the stub wants the rest of the body
   let s3 := if (at_ == "e" || at_.startsWith "c") && s2.writing == .paused && s2.preview.st == .done && s2.parsing == .icapHeader
             then settle fuel vl (step s2 (.rdIcap 100 false false false)) else s2
-  let s4 := runEvents fuel early s3 (replyEvents act al ch cut endk uob)
+  let s4 := runEvents fuel early s3 (replyEvents wrErr act al ch cut endk uob)
   settle fuel vl s4
 
 def showSt (s : St) : String :=
@@ -103,10 +105,13 @@ def handle (line : String) : String :=
       if pre > vl || (vk == "n" && vl != 0) then "bad-op" else
       let cfg : Cfg := { respmod := m == "rs", bypass := b == "1", previewWanted := if p == "n" then none else p.toNat?,
                          allow206 := u == "1", hasBody := vk == "u" || (vk == "k" && vl > 0), sizeKnown := vk == "k" }
-      let o := (outcome (simulate false cfg vl pre at_ act al ch cut endk uob)).name
+      let o := (outcome (simulate false false cfg vl pre at_ act al ch cut endk uob)).name
       -- acting at `h` the stub has not read any body byte: squid may still be in the middle of a body write
-      let o2 := if at_ == "h" then (outcome (simulate true cfg vl pre at_ act al ch cut endk uob)).name else o
-      if o == o2 then o else o ++ "|" ++ o2
+      let o2 := if at_ == "h" then (outcome (simulate true false cfg vl pre at_ act al ch cut endk uob)).name else o
+      -- ... and a reset may hit that write instead of the read
+      let o3 := if at_ == "h" && (act == "r" || endk == "r") then (outcome (simulate true true cfg vl pre at_ act al ch cut endk uob)).name else o
+      let l := [o] ++ (if o2 != o then [o2] else []) ++ (if o3 != o && o3 != o2 then [o3] else [])
+      "|".intercalate l
     | _, _, _, _, _, _, _, _, _, _, _, _, _, _ => "bad-op"
   | _ => "bad-op"
 
